@@ -206,6 +206,20 @@ def _value_matches(p, schema, m, ch, kw, v, params, fn) -> Tuple[bool, str]:
         if v.attr == kw or (v.attr == "uuid" and kw in ("trnuid",)):
             return True, ""
         return False, f"{m.name}.{kw} is given self.{v.attr}"
+    # the caller's value edited on the way: <param>.translate(..) / .replace(..) / .strip() / .upper() / <param>[:n]
+    base_ = v
+    edits_ = []
+    while True:
+        if isinstance(base_, ast.Call) and isinstance(base_.func, ast.Attribute) and base_.func.attr in ("translate", "replace", "strip", "lstrip", "rstrip", "upper", "lower", "title", "casefold", "zfill", "removeprefix", "removesuffix", "split", "partition", "ljust", "rjust", "center", "expandtabs"):
+            edits_.append("." + base_.func.attr + "()")
+            base_ = base_.func.value
+        elif isinstance(base_, ast.Subscript) and isinstance(base_.slice, ast.Slice):
+            edits_.append("[slice]")
+            base_ = base_.value
+        else:
+            break
+    if edits_ and isinstance(base_, ast.Name) and (base_.id in params or getattr(getattr(base_, "_def", None), "kind", None) == "param") and not ch.is_agg:
+        return False, f"{m.name}.{kw} is given {text(v)[:50]}: the caller's {base_.id} is edited ({', '.join(reversed(edits_))}) before it goes into the request, so what is sent is not the identifier that was supplied (two different values can collapse into one)"
     if isinstance(v, ast.Call):
         if isinstance(v.func, ast.Attribute) and text(v.func.value) == "self":
             if v.func.attr == kw:
@@ -696,3 +710,34 @@ def q_r7_pipeline(p: Project, rep: Report):
             calls = [c for c in own_nodes(fn2) if isinstance(c, ast.Call) and isinstance(c.func, ast.Attribute) and c.func.attr == "signon"]
             ok = bool(calls) and all(c.args and text(c.args[0]) == "password" for c in calls)
             rep.check("Q-R7", f"{nm2}:signon(password)", ok, "" if ok else "the sign-on is not built from the password given", loc(p, fn2))
+
+
+def q_r10_builders_keep_no_state(p: Project, rep: Report):
+    """what a request says depends on the call's arguments and the client's configuration - not on earlier calls"""
+    from .dataflow import writes_in
+    from .rules_client import fmethods
+
+    rep.rule("Q-R10", "composing a request leaves the client as it was: no method of OFXClient other than the constructor stores into the instance (self.x = ..., self.x[k] = ..., self.x.append / update / setdefault ...) - the cookie jar, which only the transport touches, aside.  A per-client memo of request parts (keyed by anything less than all the arguments) makes a later request carry what an EARLIER call asked for")
+    ci = client_class(p)
+    n = 0
+    for nm, fn0, fn in fmethods(p, ci):
+        if nm in ("__init__", "__new__"):
+            continue
+        for w in writes_in(fn):
+            t = w.target
+            root = t
+            while isinstance(root, (ast.Attribute, ast.Subscript)):
+                root = root.value
+            if not (isinstance(root, ast.Name) and root.id == "self"):
+                continue
+            if w.kind in ("attr", "item", "del") or w.kind.startswith("call:"):
+                tt = text(t)
+                if "cookiejar" in tt or "cookies" in tt:
+                    continue
+                if w.kind.startswith("call:") and tt == "self":
+                    continue
+                # calls of read-only methods named like mutators on sub-objects are not stores
+                n += 1
+                rep.check("Q-R10", f"{nm}:{tt[:40]}:{w.kind}", False, f"OFXClient.{nm} stores into the client ({tt} via {w.kind}): the next request composed by this client depends on this call - e.g. an account aggregate remembered under (bank id, account id) is reused for a request that names another account type", loc(p, w.stmt))
+    if n == 0:
+        rep.check("Q-R10", "OFXClient:methods-store-nothing-on-self", True, "", loc(p, ci.node))
